@@ -9,14 +9,21 @@ Besides single dictionaries there are *interleaved groups*: 2..3 dictionaries (a
 run in ONE process at the granularity of the generator API — `construct i` (parse + Generator(...)) and `generate i` in any
 interleaving, as a build script that prepares all generators and then writes them does —; every package is then introspected in a
 process of its own and judged against its own dictionary exactly like a single case.
+The dictionary generator draws enumerated values over printable ASCII (`< > & " ' \\`, space, braces, entity look-alikes … —
+whatever is a value of the field's type) and reuses group names systematically: one group used 2..3 times (two messages, message
++ component, header …) with definitions that are identical or differ in exactly ONE thing — the required flag of a field entry,
+of a nested <group> element, of the group itself, the order of two entries, the content of the group or of a nested group.
 
  * correspondence: the same dictionary goes to the Lean model (drv_C16): `gen.fix` (abstract generated code: class names incl. the
    unique group names, entry references, order of the groups module) and `gen.load` (references followed) are diffed with the
    introspection; malformed dictionaries are compared on the error class only; the type tables and the keyword list are diffed too.
  * oracle (no model): the property statement on the implementation — package imports; one field class per field with tag and value
-   type; header/body/trailer entries = the dictionary's entries with components expanded in place (own Python reference expansion),
-   in order, with the required flags, nested groups wired to classes with those entries; every group class defined before its use;
-   messages built from the classes round-trip, validation follows the required flags, a generated session frames them
+   type, whose `Values` and constants are the dictionary's enumerated values verbatim; header/body/trailer entries = the dictionary's
+   entries with components expanded in place (own Python reference expansion), in order, with the required flags, nested groups
+   wired to classes with those entries (followed THROUGH the message classes: the names of the group classes are not observables);
+   every group class defined before its use; messages built from the classes round-trip, validation follows the required flags —
+   `validate()` of every group container at every depth: instances lacking only optional entries (an optional nested group) pass,
+   an instance lacking a required entry (a required nested group) is rejected —, a generated session frames them
    (BodyLength/CheckSum recomputed independently) and reads them back.
 """
 import json
@@ -1535,11 +1542,19 @@ def run(ctx):
                        '(regression of the repaired finding C16-fix42), malformed dictionaries (outcome agreement only); interleaved groups: '
                        '2..3 dictionaries of any versions generated in ONE process at the granularity of the generator API (construct i / '
                        'generate i in any interleaving, "prepare all then write all" among them), each package judged against its own '
-                       'dictionary; type tables asked for in every order of the four versions; distinct = distinct dictionary JSON')
+                       'dictionary; type tables asked for in every order of the four versions; enumerated values over printable ASCII '
+                       '(histogram enum-alphabet:*); in ~55 % of the dictionaries one group is used 2..3 times (messages, components, header, '
+                       'nested) with definitions identical or differing in exactly one thing (histogram group-name-reused:* is measured on '
+                       'the reference expansion of every dictionary); plans per message: full, partial, missing (a required body entry), '
+                       'lean (only what is required), nested-missing (a required entry / nested group dropped from a group instance at any '
+                       'depth), validate() of every group container judged; distinct = distinct dictionary JSON')
     ctx.notes += [
         'ElementTree parsing, chevron rendering and the Python import machinery are on the implementation side of the correspondence only; '
         'the model is the element tree -> abstract classes -> references followed by name',
         'Python\'s recursion limit is not modelled (component / group nesting depth of the generated cases stays far below it)',
+        'enumerated values: /repo 8c9ad6b (HTML-escaped values) is a regression in corpus/C16/enum-values-special-chars.json; theorems '
+        'Props/C16Enum (guard wfDictE: values over printable ASCII), Witness/C16Enum (the escaping semantics differs); group classes '
+        'shared between uses (seeded/C16j): corpus/C16/group-twin-nested-flag.json, Witness/C16Dedup',
         'FIX 4.2 generation was repaired by /repo b154f58; the theorems cover all four versions, the former counterexample is a regression '
         '(Witness.C16, corpus/C16/fix42-regression*.json)',
         'the codec/framing clause (C13/C14 instances for generated classes) is checked on the implementation only; the Lean composition '
@@ -1640,8 +1655,11 @@ def judge_one(d, plans_wanted, tmp, tag, ctx_like):
     return sc.violations
 
 
-def shrink_first(ctx, tmp, budget=60):
-    """greedy: drop messages / items / unused fields while some violation of the same leading kind remains"""
+def shrink_first(ctx, tmp, budget=140, seconds=50.0):
+    """delta-debugging on the dictionary, coarse to fine, while a violation of the same leading kind remains: chunks of messages,
+    components, header / trailer / message / component / group entries (a group is deleted or replaced by its content), then the
+    fields nothing refers to, chunks of the others, the enumerated values of every field, and the characters of every value"""
+    import time as _time
     what, rep = ctx.violations[0]
     if rep.get('kind') == 'interleaved':
         return shrink_group(ctx, tmp)
@@ -1651,63 +1669,107 @@ def shrink_first(ctx, tmp, budget=60):
     d = json.loads(json.dumps(rep['dict']))
     plans_wanted = 'plan' in rep
     n = [0]
+    t_end = _time.monotonic() + seconds
 
-    def still(dd):
-        if n[0] >= budget:
+    def still():
+        if n[0] >= budget or _time.monotonic() > t_end or not py_valid(d):
             return False
         n[0] += 1
-        v = judge_one(dd, plans_wanted, tmp, n[0], ctx)
+        v = judge_one(json.loads(json.dumps(d)), plans_wanted, tmp, n[0], ctx)
         return bool(v) and any(w.split(':')[0][:40] == key for w, _ in v)
 
-    def candidates(dd):
-        for si, (k, p) in enumerate(dd['sections']):
-            if k in ('messages', 'components'):
-                for i in range(len(p)):
-                    c = json.loads(json.dumps(dd))
-                    del c['sections'][si][1][i]
-                    yield c
-        for si, (k, p) in enumerate(dd['sections']):
-            conts = [p] if k in ('header', 'trailer') else [m[-1] for m in p] if k in ('messages', 'components') else []
-            for ci, items in enumerate(conts):
-                for i in range(len(items)):
-                    c = json.loads(json.dumps(dd))
-                    tgt = c['sections'][si][1] if k in ('header', 'trailer') else c['sections'][si][1][ci][-1]
-                    if tgt[i][0] == 'G' and tgt[i][3]:
-                        tgt[i:i + 1] = tgt[i][3]
-                    else:
-                        del tgt[i]
-                    yield c
-        used = set()
-        memo = {}
-        comps = {c[0]: c[1] for c in all_comps(dd)}
-        for k, p in dd['sections']:
-            for items in ([p] if k in ('header', 'trailer') else [m[-1] for m in p] if k in ('messages', 'components') else []):
-                used |= closure(items, comps, memo)
-        c = json.loads(json.dumps(dd))
-        for s in c['sections']:
-            if s[0] == 'fields':
-                s[1] = [f for f in s[1] if f[1] in used or f[1] in STD]
-        yield c
-        for si, (k, p) in enumerate(dd['sections']):
-            if k == 'fields':
-                for i, f in enumerate(p):
-                    if f[1] not in used:
-                        c = json.loads(json.dumps(dd))
-                        del c['sections'][si][1][i]
-                        yield c
-                    elif f[3]:
-                        c = json.loads(json.dumps(dd))
-                        c['sections'][si][1][i][3] = f[3][:-1]
-                        yield c
+    def reduce_list(lst, unwrap=False):
+        """remove chunks of `lst` (in place), halving the chunk size; with `unwrap` a group item that cannot go is replaced by its content"""
+        chunk = len(lst)
+        while chunk >= 1 and lst:
+            i = 0
+            while i < len(lst):
+                saved = lst[i:i + chunk]
+                del lst[i:i + chunk]
+                if still():
+                    continue
+                lst[i:i] = saved
+                if unwrap and chunk == 1 and saved[0][0] == 'G' and saved[0][3]:
+                    lst[i:i + 1] = saved[0][3]
+                    if still():
+                        continue
+                    lst[i:i + len(saved[0][3])] = saved
+                i += chunk
+            chunk //= 2
 
-    progress = True
-    while progress and n[0] < budget:
-        progress = False
-        for c in candidates(d):
-            if c != d and py_valid(c) and still(c):
-                d = c
-                progress = True
-                break
+    def reduce_items(items):
+        reduce_list(items, unwrap=True)
+        for it in items:
+            if it[0] == 'G':
+                reduce_items(it[3])
+
+    def containers():
+        for k, p in d['sections']:
+            if k in ('header', 'trailer'):
+                yield p
+            elif k in ('messages', 'components'):
+                for m in p:
+                    yield m[-1]
+
+    for k, p in d['sections']:
+        if k in ('messages', 'components'):
+            reduce_list(p)
+    for items in list(containers()):
+        reduce_items(items)
+
+    def drop_name(items, name):
+        items[:] = [it for it in items if it[1] != name]
+        for it in items:
+            if it[0] == 'G':
+                drop_name(it[3], name)
+
+    # the uses of a reused group shrink only together: drop a name from every entry list at once
+    memo = {}
+    comps = {c[0]: c[1] for c in all_comps(d)}
+    for name in sorted(set().union(*[closure(items, comps, memo) for items in containers()] or [set()])):
+        backup = json.dumps(d['sections'])
+        for items in containers():
+            drop_name(items, name)
+        if json.dumps(d['sections']) == backup or not still():
+            d['sections'] = json.loads(backup)
+    for k, p in d['sections']:
+        if k in ('messages', 'components'):
+            reduce_list(p)
+    used, memo = set(), {}
+    comps = {c[0]: c[1] for c in all_comps(d)}
+    for items in containers():
+        used |= closure(items, comps, memo)
+    for sec in d['sections']:
+        if sec[0] == 'fields':
+            keep = [f for f in sec[1] if f[1] in used or f[1] in STD]
+            saved, sec[1][:] = list(sec[1]), keep
+            if not still():
+                sec[1][:] = saved
+            reduce_list(sec[1])
+            for f in sec[1]:
+                if f[3]:
+                    reduce_list(f[3])
+                for v in f[3]:                      # the characters of an enumerated value
+                    if len(v[0]) > 1:
+                        chars = list(v[0])
+                        orig = v[0]
+
+                        class Key(list):
+                            pass
+                        lst = Key(chars)
+                        chunk = len(lst)
+                        while chunk >= 1:
+                            i = 0
+                            while i < len(lst) and len(lst) > 1:
+                                cand = lst[:i] + lst[i + chunk:]
+                                if cand:
+                                    v[0] = ''.join(cand)
+                                    if still():
+                                        lst[:] = cand
+                                        continue
+                                i += chunk
+                            chunk //= 2
+                        v[0] = ''.join(lst) or orig
     v = judge_one(d, plans_wanted, tmp, 'final', ctx)
     if v and any(w.split(':')[0][:40] == key for w, _ in v):
         w, r = [x for x in v if x[0].split(':')[0][:40] == key][0]
